@@ -224,6 +224,7 @@ inductive VErr where
   | keyError      -- `saml_msg["SigAlg"]` / `del _args["Signature"]`
   | unsupported   -- neither SAMLRequest nor SAMLResponse
   | b64           -- `binascii.Error`
+  | cert          -- the certificate string is not a certificate
 deriving DecidableEq, Repr
 
 inductive VOut where
@@ -233,18 +234,54 @@ inductive VOut where
   | error (e : VErr)
 deriving DecidableEq, Repr
 
-/-- the key `signer.verify(string, _sign, _key)` ends up using: the certificate's key if a
-    certificate is given, else `sigkey`, else the verifier's own key (`key or self.key`) -/
-def effKey (own : κ) (cert sigkey : Option (Pub κ)) : Pub κ :=
-  match cert with
-  | some c => c
-  | none => match sigkey with
-    | some k => k
-    | none => pub own
+/-- a key object handed to / extracted by the verifier: an RSA public key (a private key counts as
+    its public half, `key_verify` takes `public_key()`), or some other key object (EC, Ed25519, DSA):
+    truthy, but its `verify()` cannot be called the RSA way — the exception is swallowed by
+    `key_verify`, the answer is `False` -/
+inductive VKey (κ : Type) where
+  | rsa (pk : Pub κ)
+  | other
+deriving DecidableEq, Repr
 
-/-- `verify_redirect_signature(saml_msg, crypto, cert, sigkey)`; `own` is `crypto.key`. -/
-def verifyRedirect (T : Tables) (C : Codec (Sig κ)) (own : κ) (msg : Dict)
-    (cert sigkey : Option (Pub κ)) : VOut :=
+/-- a non-empty certificate string: `extract_rsa_key_from_x509_cert` returns whatever public key
+    it holds, or raises (not a certificate).  An EMPTY string is falsy: it counts as "no certificate". -/
+inductive Cert (κ : Type) where
+  | holds (k : VKey κ)
+  | malformed
+deriving DecidableEq, Repr
+
+/-- what `signer.verify(string, _sign, _key)` ends up verifying under -/
+inductive KeyRes (κ : Type) where
+  /-- key extraction raised -/
+  | raises
+  /-- `some pk`: RSA verification under `pk`; `none`: no key / a key that cannot verify RSA signatures -/
+  | under (pk : Option (Pub κ))
+deriving DecidableEq, Repr
+
+def VKey.pub? : VKey κ → Option (Pub κ)
+  | .rsa pk => some pk
+  | .other => none
+
+/-- `_key = extract(cert) if cert else sigkey`, then `key_verify(_key or (sigkey or crypto.key), …)`:
+    the certificate's key if a certificate is given, else `sigkey`, else the verifier's own key
+    (`own = none`: a backend without key).  Key objects are truthy, so a certificate's key is never
+    replaced by the fallback. -/
+def effKey (own : Option κ) (cert : Option (Cert κ)) (sigkey : Option (VKey κ)) : KeyRes κ :=
+  match cert with
+  | some (.holds k) => .under k.pub?
+  | some .malformed => .raises
+  | none => match sigkey with
+    | some k => .under k.pub?
+    | none => .under (own.map pub)
+
+/-- `key_verify` under what `effKey` gave -/
+def verifyUnder (pk : Option (Pub κ)) (digest msg : Str) (s : Sig κ) : Bool :=
+  match pk with
+  | some pk => s.verify pk digest msg
+  | none => false
+
+/-- `verify_redirect_signature` once the key question is settled -/
+def verifyWith (T : Tables) (C : Codec (Sig κ)) (kr : KeyRes κ) (msg : Dict) : VOut :=
   match msg.get kSigAlg with
   | none => .error .keyError
   | some alg =>
@@ -261,9 +298,17 @@ def verifyRedirect (T : Tables) (C : Codec (Sig κ)) (own : κ) (msg : Dict)
         | none => .error .keyError
         | some sigText =>
           let octets := signedString C.enc ord (msg.del kSignature)
-          match C.b64d sigText with
-          | none => .error .b64
-          | some s => if s.verify (effKey own cert sigkey) dig octets then .verified else .notVerified
+          match kr with
+          | .raises => .error .cert
+          | .under pk =>
+            match C.b64d sigText with
+            | none => .error .b64
+            | some s => if verifyUnder pk dig octets s then .verified else .notVerified
+
+/-- `verify_redirect_signature(saml_msg, crypto, cert, sigkey)`; `own` is `crypto.key`. -/
+def verifyRedirect (T : Tables) (C : Codec (Sig κ)) (own : Option κ) (msg : Dict)
+    (cert : Option (Cert κ)) (sigkey : Option (VKey κ)) : VOut :=
+  verifyWith T C (effKey own cert sigkey) msg
 
 /-! ### receiver: `Request._loads` / `_do_redirect_sig_check` -/
 
@@ -281,20 +326,21 @@ def loadsMsg (origdoc sigalg signature : Str) (relayState : Option Str) : Dict :
      | some r => [(kRelayState, r)]
      | none => [])
 
-/-- the `if sign_redirect:` block of `Request._loads`: `true` = passes, `false` = `IncorrectlySigned` -/
-def redirectSigCheck (T : Tables) (C : Codec (Sig κ)) (own : κ) (certs : List (Pub κ)) (origdoc : Str)
+/-- the `if sign_redirect:` block of `Request._loads`: `true` = passes, `false` = `IncorrectlySigned`.
+    `certs`: the keys held by the (well-formed) signing certificates metadata lists for the sender. -/
+def redirectSigCheck (T : Tables) (C : Codec (Sig κ)) (own : Option κ) (certs : List (VKey κ)) (origdoc : Str)
     (relayState sigalg signature : Option Str) : Bool :=
   match sigalg, signature with
   | some a, some s =>
-    anyVerified (certs.map fun c => verifyRedirect T C own (loadsMsg origdoc a s relayState) (some c) Option.none)
-      == some true
+    anyVerified (certs.map fun c =>
+      verifyRedirect T C own (loadsMsg origdoc a s relayState) (some (.holds c)) Option.none) == some true
   | _, _ => false
 
 /-- `Server.parse_authn_request` as far as this property goes: `must` = want_authn_requests_signed,
     `redirect` = the binding is HTTP-Redirect, `wellformed` = every other check of the receiver
     (decoding, XML, schema, destination, IssueInstant) passes. -/
-def requestAccepted (T : Tables) (C : Codec (Sig κ)) (own : κ) (must redirect wellformed : Bool)
-    (certs : List (Pub κ)) (origdoc : Str) (relayState sigalg signature : Option Str) : Bool :=
+def requestAccepted (T : Tables) (C : Codec (Sig κ)) (own : Option κ) (must redirect wellformed : Bool)
+    (certs : List (VKey κ)) (origdoc : Str) (relayState sigalg signature : Option Str) : Bool :=
   (if must && redirect then redirectSigCheck T C own certs origdoc relayState sigalg signature else true)
     && wellformed
 
